@@ -58,6 +58,7 @@ class LsClient:
         self.ends = 0            # $/progress end seen
         self.begins = 0
         self.tasks = 0           # background tasks we know were queued
+        self.reports = []        # ($/progress report message, percentage) in arrival order
         self.responses = {}
         self.trace = [] if log else None
         self.t = threading.Thread(target=self._reader, daemon=True)
@@ -131,7 +132,10 @@ class LsClient:
                 self.publish_count[k] = self.publish_count.get(k, 0) + 1
             elif m == "$/progress":
                 kind = msg["params"].get("value", {}).get("kind")
-                if kind == "end":
+                if kind == "report":
+                    v = msg["params"]["value"]
+                    self.reports.append((v.get("message"), v.get("percentage")))
+                elif kind == "end":
                     self.ends += 1
                 elif kind == "begin":
                     self.begins += 1
@@ -191,6 +195,24 @@ class LsClient:
         self.notify("textDocument/didOpen", {"textDocument": {"uri": u, "languageId": "veryl", "version": v, "text": text}})
         self.pump_until(lambda: self.publish_count.get((u, v), 0) >= 1, "publishDiagnostics after didOpen")
         return self.diags[u][1]
+
+    def open_nowait(self, path, text):
+        """didOpen without waiting for anything; returns (uri, version) to wait on later"""
+        v = self._new_version()
+        u = uri_of(path)
+        self.tasks += 1
+        self.notify("textDocument/didOpen", {"textDocument": {"uri": u, "languageId": "veryl", "version": v, "text": text}})
+        return u, v
+
+    def wait_published(self, u, v):
+        self.pump_until(lambda: self.publish_count.get((u, v), 0) >= 1, "publishDiagnostics")
+
+    def wait_report(self, name):
+        """until the running background task reports file `name` (or all queued tasks have ended). True if seen."""
+        n0 = len(self.reports)
+        self.pump_until(lambda: any(m == name for m, _ in self.reports[n0:]) or self.ends >= self.tasks,
+                        "progress report for " + name)
+        return any(m == name for m, _ in self.reports[n0:])
 
     def did_change(self, path, text):
         v = self._new_version()
